@@ -62,7 +62,7 @@ EPOCH = 1600000000      # runs that start at a large absolute time (a clock set 
 def cfg_C02(tier, rng):
     return [dict(name='skeleton', charts=f1(tier, rng, sample_t=2500) + shipped(max_oracle=4)
                  + gc.family_hist(rng, 25 if tier == QUICK else 250) + gc.family_hist_orth(rng, 10 if tier == QUICK else 60)
-                 + gc.family_fanout(rng, 8 if tier == QUICK else 100) + gc.family_nested(rng, 16 if tier == QUICK else 200),
+                 + gc.family_fanout(rng, 14 if tier == QUICK else 120) + gc.family_nested(rng, 16 if tier == QUICK else 200),
                  consts=dict(MaxQ=1, MaxLevel=8 if tier == QUICK else 10),
                  variants=[dict(variant='api'), dict(variant='api_edit')],
                  jobs_for=(lambda ci, h, r: [dict(variant=('api', 'api_edit')[(ci + len(h)) % 2])]) if tier == QUICK else None,
